@@ -10,4 +10,9 @@ CHECKS = {
         "note": "Trusted: Coq kernel; extraction (ExtrOcamlBasic) and the OCaml/Go adapters for the correspondence; io.Reader contract as hypothesis reader_contract (stated in the theorems); Go slices/min/uint64 semantics as modelled. Not verified: Go compiler/runtime.",
         "technique": "Coq proof (induction over the Read/Write sequence, abstract reader as Section variable) + extracted-model differential correspondence",
     },
+    "C11": {
+        "text": "RingBuffer: theorem C11_ring — for EVERY capacity and EVERY history of Push/Clear/Current/Len/Range/ReverseRange (early-stopping callbacks included) the model's observations equal those of the specification whose only state is the list of values pushed since creation/last Clear (contents = last min(k,n) of them, oldest first), and C11_ring_clear — a cleared buffer is literally a new one. SortedSliceSet: C11_sorted_refines — binary search + positional insert/delete coincide, on every in-domain history over any number of objects (nil pointers, clones), with the canonical set operations, which are characterised as the mathematical set operations (C11_add_members, _delete_members, _has, _equal, _values_unique, _strictly_ascending, _nodup, _range_prefix, _clone, _frame = clone independence). MapSet is the canonical model directly (Go map trusted). Models are tied to the code by differential runs of the extracted model on small-exhaustive and random histories; MapSet's undefined iteration order is judged by the extracted admissibility predicate map_range_ok.",
+        "note": "Trusted: Coq kernel; extraction + adapters; Go's map, slices.Sort/Compact (contract), slices.BinarySearch/Insert/Delete (transcribed); element type int. Add/Delete on a nil set are undocumented and excluded (SBad).",
+        "technique": "Coq proof (refinement to an abstract spec by a representation invariant, induction over histories) + extracted-model differential correspondence",
+    },
 }
